@@ -16,6 +16,7 @@ code->spec: seeded random integer stacks n in 4..7, groups 3..6, values 0..3, th
            subjects reordered) give the symmetry clauses.
 validate:  spec/Trace_Nbs.tla.
 """
+import os
 import random
 
 import numpy as np
@@ -86,12 +87,17 @@ def _stack(mats):
     return np.stack([np.array(m, dtype=float) for m in mats], axis=2)
 
 
-def _call(x, y, thr, k, tail, paired, stream):
+def _call(x, y, thr, k, tail, paired, stream, impl="serial"):
     import bct
     out = dict(raised="", malformed="", adj=[], pvals=[], null=[])
     try:
-        pv, adj, null = bct.nbs_bct(x.copy(), y.copy(), thr, k=k, tail=tail, paired=bool(paired),
-                                    seed=stream)
+        if impl == "parallel":        # optional side check (VERIF_C19_PARALLEL=1), not anchored by C19
+            from bct import nbs_parallel
+            pv, adj, null = nbs_parallel.nbs_bct(x.copy(), y.copy(), thr, k=k, tail=tail,
+                                                 paired=bool(paired), seed=stream, workers=2)
+        else:
+            pv, adj, null = bct.nbs_bct(x.copy(), y.copy(), thr, k=k, tail=tail, paired=bool(paired),
+                                        seed=stream)
     except Exception as e:
         out["raised"] = encode.exc_name(e)
         return out
@@ -112,12 +118,16 @@ def exec_job(job):
                y=[encode.mat_int(m) for m in job["y"]], tn=job["tn"], td=job["td"], tail=tail,
                paired=int(paired), k=k, script_status="none", has_expect=0, exp_raised=0,
                exp_adj=[], exp_null=[], exp_cnt=[], exp_tie=0)
-    if job.get("script") is not None:
+    impl = job.get("impl", "serial")
+    if impl == "parallel":
+        rec["fn"] = "nbs_parallel.nbs_bct"
+        stream = job["seed"]           # an integer or None: the workers seed their own streams
+    elif job.get("script") is not None:
         stream = ScriptNbsRNG(job["script"], fallback_seed=job.get("seed", 1))
     else:
         stream = LogRNG(job["seed"])
-    rec.update(_call(x, y, thr, k, tail, paired, stream))
-    rec["draws"] = stream.draws
+    rec.update(_call(x, y, thr, k, tail, paired, stream, impl))
+    rec["draws"] = getattr(stream, "draws", [])
     if isinstance(stream, ScriptNbsRNG):
         rec["script_status"] = stream.status()
     if job.get("expect") is not None:
@@ -125,10 +135,10 @@ def exec_job(job):
         rec.update(has_expect=1, exp_raised=e["raised"], exp_adj=e["adj"], exp_null=e["null"],
                    exp_cnt=e["cnt"], exp_tie=e["tie"])
     # transformed calls: only their adjacency output is used (k = 1)
-    s = _call(y, x, thr, 1, SWAP[tail], paired, np.random.RandomState(0))
+    s = _call(y, x, thr, 1, SWAP[tail], paired, np.random.RandomState(0), impl)
     rec["swap"] = dict(raised=s["raised"] or s["malformed"], adj=s["adj"])
     px, py = job["px"], job["py"]
-    t = _call(x[:, :, px], y[:, :, py], thr, 1, tail, paired, np.random.RandomState(0))
+    t = _call(x[:, :, px], y[:, :, py], thr, 1, tail, paired, np.random.RandomState(0), impl)
     rec["reord"] = dict(raised=t["raised"] or t["malformed"], adj=t["adj"])
     return rec
 
@@ -242,6 +252,14 @@ def run(ctx):
     rng = random.Random(ctx.seed * 104729 + 3)
     jobs += [random_job(rng, ctx.quick) for _ in range(400 if ctx.quick else 8000)]
     recs = pool.run_jobs(__name__, jobs, limit=60.0)
+    if os.environ.get("VERIF_C19_PARALLEL"):
+        # side check of bct/nbs_parallel.py (own process pool: run in-line, not in pool workers)
+        pj = []
+        for j in jobs[nb:nb + 12]:
+            pj.append(dict(j, impl="parallel", k=6, src="random-parallel",
+                           seed=(None if len(pj) % 2 else j["seed"] % 1000)))
+        jobs += pj
+        recs += pool.run_jobs(__name__, pj, limit=120.0, procs=1)
     verdicts = ctx.validate("Trace_Nbs.tla", "Trace_Nbs.cfg", recs, chunk=1000)
     ctx.judge(jobs, recs, verdicts)
     scripted = [r for r in recs[:nb] if not r.get("timeout")]
